@@ -37,7 +37,11 @@ Sources (pinned tree, /repo/src):
   `compute_sub_gradient`, :187 `compute_gradient`, :240 / :248 `compute_objective_function`, :282 / :384 the penalised Hessian
   products and :329 / :355 their full-data loops;
 * recon_buildblock/PoissonLogLikelihoodWithLinearModelForMean.cxx :275 refusal of unbalanced subsets,
-  :402 `set_total_or_subset_sensitivities`.
+  :402 `set_total_or_subset_sensitivities`; for ONE object set up several times (section "The cached (subset) sensitivities …"):
+  :187-340 the sensitivity part of `set_up` (resize of `subsensitivity_sptrs`, decision to compute or to read, reading and
+  writing the sensitivity files, pre-allocation of subset 0's image), :349-399 `compute_sensitivities` — with the pointers
+  (`subsensitivity_sptrs[s] = subsensitivity_sptrs[0]`, `reset`, `clone`) on a small heap, since the members survive from one
+  `set_up` to the next.
 
 The model is written once for an arbitrary carrier `K` with the usual operations; the driver runs it at
 `Rat` (exact; every float printed by the harness is a dyadic rational) and, where `log` is needed, at
